@@ -117,6 +117,28 @@ CHECKS["C18"] = dict(
          "All 583 OpenType-layout faces of the corpus x texts from their own coverage and script samples x directions.",
     note="Trusts GuessSegmentProperties for the native direction, signature strings as glyph identity, TLC. Non-native directions are out of scope (the engine reverses the buffer and the supplied context is no longer the logical neighbour). Texts sampled by seed; no implementation model of contextual lookups is part of this check.")
 
+CHECKS["C17"] = dict(
+    engine="conc",
+    technique="TLA+ model of goroutine programs over a shared immutable font (Conc.tla; all interleavings model-checked for sequential equivalence), program sets generated by TLC -simulate, executed free-running on the real library built with the Go race detector, validated by the ConcV monitor (SeqEquiv, NoRace)",
+    category="exploration", design_ref="DESIGN.md §5 C17",
+    text="TLC supplies the programs and the law (each step's result equals the result of the same program run alone; no race report); the harness runs each program set with 16-64 goroutines sharing six parsed fonts, sequentially first for reference digests. "
+         "Exploration is the honest level: the library has no synchronisation protocol to model, so memory-level interleavings are sampled by the scheduler and observed by the race detector, not enumerated.",
+    note="Trusts the Go race detector and scheduler sampling; sha1 digests as results. The abstract interleaving model says nothing about the code by itself.")
+CHECKS["C09"] = dict(
+    engine="fault",
+    technique="TLA+ fault model (FaultModel.tla) enumerated by TLC into fault plans, applied to corpus font bytes; the load/query/shape lifecycle runs in worker sub-processes and every execution is validated by the FaultV lifecycle monitor (Total, Lifecycle, AllocBound, RawPredicted)",
+    category="fault_enumeration", design_ref="DESIGN.md §5 C09",
+    text="Every single fault of the model (truncations, directory field boundary values, header words of each table, swaps, table count) and every pair of directory faults on the first tables is applied to each font of the corpus; "
+         "the monitor accepts only Ok/Err outcomes, bounds allocation by 64 x size + 64 MiB and predicts the result of RawTable from the directory. Time-outs and dead workers are re-run in isolation three times before they count.",
+    note="Function-level known-finding signatures (top library frame + error kind). Not coverage-guided: deep structures are reached through the first 64 bytes of tables and truncations only. Quick tier samples 60 files x 250 plans by seed.")
+
+CHECKS["C10"] = dict(
+    engine="glyf",
+    technique="PARTIAL: an independent TrueType simple-glyph decoder written in TLA+ (Glyf.tla: flags/repeats, coordinate deltas, implied mid-points, contours as cyclic segment lists, extents, hmtx tail rule) evaluated by TLC on raw glyph bytes and compared with what the font package decodes",
+    category="model_checking", design_ref="DESIGN.md §5 C10, §6",
+    text="The property names reference decoders that do not exist in this sandbox; what the TLA+ family can supply is an independent decoder for the integer-only, case-rich part. For every sampled glyph of every TrueType corpus font TLC decodes the raw bytes and checks Outline (each contour equal up to rotation), Extents, Advance and Upem.",
+    note="PARTIAL CLAIM: CFF/CFF2 outlines, composite glyphs, variable-font instances (gvar/HVAR/avar) and cmap byte-level decoding are NOT covered. Trusts the harness's slicing of glyf by loca and TLC.")
+
 NOT_YET = {}
 NA = {
  "C05": "defined as agreement with the reference C HarfBuzz; no reference shaper (uharfbuzz/hb-shape) exists in this sealed sandbox and re-specifying HarfBuzz in TLA+ would make the spec the reference (DESIGN §6)",
